@@ -175,8 +175,51 @@ def replay_pspace(ob):
     return {'reproduced': False, 'detail': 'product-space kernels, zero / one and all dunders agree with per-part NumPy arithmetic on %d product spaces' % len(spaces)}
 
 
+def stale_nan_cases():
+    """(case, failure-or-None): the previous contents of the output - here NaN, as an uninitialised element may hold - never influence the result, in every size regime:
+    set_zero(), lincomb into an output that is not an operand, assign, and in-place calls of operators that zero their output first"""
+    odl = _import_odl()
+    import numpy as np
+    for n in (3, 50, 99, 100, 150):
+        for dt in ('float64', 'float32', 'complex128'):
+            sp = odl.tensor_space(n, dtype=dt)
+            rng = np.random.default_rng(n)
+            x, y = sp.element(rng.uniform(0.5, 2.0, n)), sp.element(rng.uniform(0.5, 2.0, n))
+
+            def stale():
+                return sp.element(np.full(n, np.nan))
+            checks = []
+            o = stale(); o.set_zero(); checks.append(('set_zero()', o, np.zeros(n)))
+            for a, b in ((0, 0), (2.0, 0), (0, 3.0), (2.0, 3.0)):
+                o = stale(); sp.lincomb(a, x, b, y, out=o); checks.append(('lincomb(%r, x, %r, y, out=<NaN>)' % (a, b), o, a * x.asarray() + b * y.asarray()))
+            o = stale(); o.assign(x); checks.append(('assign(x)', o, x.asarray()))
+            o = stale(); sp.multiply(x, y, out=o); checks.append(('multiply(x, y, out=<NaN>)', o, x.asarray() * y.asarray()))
+            for label, got, want in checks:
+                case = {'size': n, 'dtype': dt, 'operation': label}
+                bad = None if np.allclose(got.asarray(), want, equal_nan=False) else '%s on %r: %r, expected %r' % (label, sp, got.asarray()[:4], np.asarray(want)[:4])
+                yield case, bad
+    for n in (5, 150):
+        X = odl.uniform_discr(0, 1, n)
+        f = X.element(np.arange(n, dtype=float) ** 2)
+        ops = {'Laplacian': odl.Laplacian(X), 'ZeroOperator': odl.ZeroOperator(X), 'ComponentProjectionAdjoint': odl.ComponentProjection(X ** 2, 0).adjoint}
+        for name, op in ops.items():
+            case = {'size': n, 'operator': name}
+            out = op.range.element()
+            for part in (out.parts if hasattr(out, 'parts') else [out]):
+                part[:] = np.nan
+            got, want = op(f, out=out), op(f)
+            bad = None if (got - want).norm() < 1e-9 * (1 + want.norm()) else '%s on %r: op(x, out=<NaN>) differs from op(x) (NaN survives: %r)' % (name, X, bool(np.isnan((got - want).norm())))
+            yield case, bad
+
+
 def replay(ob):
     rp = ob.get('replay') or {}
+    if ob.get('unit', '').startswith('nan-native/'):
+        want = ob.get('model') or rp.get('case')
+        for case, bad in stale_nan_cases():
+            if case == want:
+                return {'reproduced': bool(bad), 'detail': bad or 'holds natively', 'input': case}
+        return {'reproduced': False, 'detail': 'case not found'}
     if ob.get('unit', '').startswith('elem/__pow__') or ob.get('unit', '').startswith('elem/__ipow__'):
         try:
             odl = _import_odl()
